@@ -131,6 +131,12 @@ def run_case(ctx, rep, spec, gradp, reactions, floor, source, model, start=None)
             recs[b]["file"], recs[b]["offset"] = f, int(o)
         lvrecs.append(recs)
         gt.append([[100, 101, 102] for _ in recs]); it.append([[200 + j for j in range(spec["nspec"])] for _ in recs])
+    if model:
+        diff = writers.level_header_matches_model(out, Q, leanio)
+        if diff:
+            rep.tie(f"level header text of levels {diff} differs from the Lean renderer (whose parse-after-render law is proved)", case)
+        else:
+            rep.agree()
     m = leanio.driver([{"op": "chk2plt", "levels": lvrecs, "gradp": gradp, "reactions": reactions, "gradp_tags": gt, "ir_tags": it}])[0]
     ok = True
     for lv in range(nlev):
